@@ -83,7 +83,7 @@ func (m *Machine) everr(format string, a ...interface{}) {
 var ghostSorts = map[string]Sort{
 	"@in": SBytes, "@pos": SBV64, "@out": SStrm, "@W": SBool, "@E": SBool, "@buf": SStrm, "@rd": SStrm,
 	"@nwrites": SBV64, "@dyncalls": SBV64, "@rset": SBV64,
-	"@refs": SBV64, "@defs": SBV64, "@depth": SBV64, "@alloc": SBV64, "@nread": SBV64,
+	"@refs": SBV64, "@declared": SBV64, "@defs": SBV64, "@depth": SBV64, "@alloc": SBV64, "@nread": SBV64,
 }
 
 func (m *Machine) ghost(st *State, name string) Value {
